@@ -1,6 +1,6 @@
 # type: ignore
 """miniB path configuration 'mirror' (root /n): the main templates with another root."""
-from spil_fs_conf import make_templates, path_defaults, sidkeys_to_extrakeys, extrakeys_to_sidkeys, path_mapping, search_path_mapping, key_patterns as _kp
+from spil_fs_main_conf import make_templates, path_defaults, sidkeys_to_extrakeys, extrakeys_to_sidkeys, path_mapping, search_path_mapping, key_patterns as _kp
 
 path_templates = make_templates('/n')
 key_patterns = {k: dict(v) for k, v in _kp.items()}
